@@ -1,10 +1,7 @@
 (* C05 Invalid input is refused, with the matching error, however it is spelled *)
 Load "coq/props/Hdr".
 From PM Require Import Lemmas Segs C05 C05b C08rel Final.
-Lemma src_rt : rt_ok cfg. Proof. apply conds_rt_ok. vm_compute. reflexivity. Qed.
-Lemma src_tbl : tbl_ok cfg. Proof. apply conds_tbl_ok. vm_compute. reflexivity. Qed.
-Lemma src_cfg_ok : cfg_ok cfg. Proof. exact (rt_cfg _ src_rt). Qed.
-Ltac sc := sidecond_with src_rt src_tbl.
+Lemma src_cfg_ok : cfg_ok cfg. Proof. sc. Qed.
 (* never accepted: an accepted string is a well-formed skeleton all of whose checks succeed (every shape) *)
 Theorem C05_never_accepted : forall (T E : Type) (sh : shape T E) s x, parse cfg sh s = Ok x -> exists r, WFr cfg r /\ s = asm r /\ checks cfg sh r = Ok x.
 Proof. intros T E sh s x. apply parse_sound. Qed.
